@@ -1,0 +1,48 @@
+//go:build verif
+
+package keeper
+
+// Contracts for x/dispute/keeper, read by /verif/bin/govc. Comment-only: compiled
+// only with -tags verif and adds no code.
+
+// ---- voting power ratio (C12) ----
+// Ratio(total, part) is part's share of total, in percent with six decimals, divided by the four
+// stakeholder groups: 25_000000 when part == total.
+
+//@ func Ratio(total, part) (r)
+//@ requires [non_negative] total >= 0 && part >= 0
+//@ ensures [zero_total_gives_zero] total == 0 ==> r == 0
+//@ ensures [whole_group_gives_quarter] total > 0 && part == total ==> r == 25000000
+//@ ensures [nothing_gives_zero] part == 0 ==> r == 0
+//@ ensures [never_negative] r >= 0
+//@ ensures [at_most_quarter_for_a_part] total > 0 && part <= total ==> r <= 25000000
+
+// ---- tally result (C12) ----
+
+//@ func (k Keeper).UpdateDispute(ctx, id, dispute, vote, scaledSupport, scaledAgainst, scaledInvalid, quorum) (err)
+//@ modifies dispute.Disputes, dispute.Votes
+//@ ensures [decided_for_every_distribution] err == nil
+//@ ensures [support_wins] scaledSupport > scaledAgainst && scaledSupport > scaledInvalid ==> dispute.Votes[id].VoteResult == (quorum ? types.VoteResult_SUPPORT : types.VoteResult_NO_QUORUM_MAJORITY_SUPPORT)
+//@ ensures [against_wins] scaledAgainst > scaledSupport && scaledAgainst > scaledInvalid ==> dispute.Votes[id].VoteResult == (quorum ? types.VoteResult_AGAINST : types.VoteResult_NO_QUORUM_MAJORITY_AGAINST)
+//@ ensures [invalid_wins] scaledInvalid > scaledSupport && scaledInvalid > scaledAgainst ==> dispute.Votes[id].VoteResult == (quorum ? types.VoteResult_INVALID : types.VoteResult_NO_QUORUM_MAJORITY_INVALID)
+//@ ensures [no_strict_majority_is_invalid] !(scaledSupport > scaledAgainst && scaledSupport > scaledInvalid) && !(scaledAgainst > scaledSupport && scaledAgainst > scaledInvalid) ==> dispute.Votes[id].VoteResult == (quorum ? types.VoteResult_INVALID : types.VoteResult_NO_QUORUM_MAJORITY_INVALID)
+//@ ensures [result_is_final] dispute.Votes[id].VoteResult != types.VoteResult_NO_TALLY
+//@ ensures [stores_dispute_as_given] has(dispute.Disputes, id) && dispute.Disputes[id] == dispute
+//@ ensures [vote_end_is_block_time] dispute.Votes[id].VoteEnd == blocktime(ctx)
+//@ ensures [other_disputes_and_votes_untouched] forall j int :: j != id ==> dispute.Votes[j] == old(dispute.Votes[j]) && dispute.Disputes[j] == old(dispute.Disputes[j])
+
+// ---- fee and slash amounts (C11) ----
+// Stake behind a report of power p is p * 10^6 loya.
+
+//@ func (k Keeper).GetDisputeFee(ctx, rep, category) (fee, err)
+//@ requires [power_fits] rep.Power < 9223372036854775808
+//@ ensures [warning_is_one_percent] category == types.Warning ==> err == nil && fee == rep.Power * 1000000 / 100
+//@ ensures [minor_is_five_percent] category == types.Minor ==> err == nil && fee == rep.Power * 1000000 * 5 / 100
+//@ ensures [major_is_whole_stake] category == types.Major ==> err == nil && fee == rep.Power * 1000000
+//@ ensures [unknown_category_rejected] category != types.Warning && category != types.Minor && category != types.Major ==> err != nil
+
+//@ func GetSlashPercentageAndJailDuration(category) (pct, jail, err)
+//@ ensures [warning] category == types.Warning ==> err == nil && pct == 10000 && jail == 0
+//@ ensures [minor] category == types.Minor ==> err == nil && pct == 50000 && jail == 600
+//@ ensures [major] category == types.Major ==> err == nil && pct == 1000000 && jail == 9223372036854775807
+//@ ensures [unknown_category_rejected] category != types.Warning && category != types.Minor && category != types.Major ==> err != nil
